@@ -23,6 +23,10 @@ Records (whitespace tokens):
   nogood <tag> <atoms>             -> no solution satisfies all atoms
   infer <tag> <cons> <atoms:premises> none|<atom>
   minfer <tag> <atoms:premises> none|<atom>  -> premises → conclusion holds in every solution of the model
+  drat <tag> <cnf> <proof>         -> the lemmas form a RUP refutation ending in the empty clause (Check/Rup.lean)
+  maxsat <tag> <softs> <cost> v*   -> model satisfies the hard clauses, has that cost, and the cost is optimal
+  same <tag> a b                   -> two observations that must be identical
+  drcp <kind> <obj> <lits> :: steps -> the proof file is a valid DRCP certificate (Check/DrcpCheck.lean)
   drcpw <step> :: <text>           -> the real writer's line equals the model's rendering and reads back
   drcpr ok <step>|err :: <text>    -> the real reader's verdict / result equals the model's
   valsel <name> x <n v*n> <atom>   -> the decision of a value selector is in the model's support
@@ -33,6 +37,9 @@ import Pumpkin.Check.Oracle
 import Pumpkin.Model.Predicate
 import Pumpkin.Model.Branching
 import Pumpkin.Model.Drcp
+import Pumpkin.Check.Rup
+import Pumpkin.Check.MaxSat
+import Pumpkin.Check.DrcpCheck
 import Driver.Parse
 
 open Pumpkin Driver
@@ -255,6 +262,66 @@ def respond (st : St) (line : String) : St × Option String :=
         (st, some (if checkNogood st.sols (q.neg :: prem) then s!"ok minfer {tag}" else s!"FAIL minfer {tag} cuts-a-solution"))
       | _ => (st, some "FAIL minfer unparsed")
     | none => (st, some "FAIL minfer unparsed")
+  | "drcp" :: _ =>
+    -- `drcp <kind 0|1|2> (none | min x | max x) <nlits> (code <atom>)* :: step ; step ; …`
+    match line.splitOn " :: " with
+    | [lhs, text] =>
+      let hd := (tokens lhs).drop 1
+      let pLit : P (Nat × Atom) := fun ts => do
+        let (c, ts) ← pNat ts
+        let (a, ts) ← pAtom ts
+        pure ((c, a), ts)
+      let parsed : Option (String × Pumpkin.DrcpCheck.Obj × List (Nat × Atom)) :=
+        match hd with
+        | kind :: "none" :: rest => (pList pLit rest).bind (fun r => if r.2.isEmpty then some (kind, .none, r.1) else none)
+        | kind :: "min" :: x :: rest => (pList pLit rest).bind (fun r => x.toNat?.bind (fun x => if r.2.isEmpty then some (kind, .minimise x, r.1) else none))
+        | kind :: "max" :: x :: rest => (pList pLit rest).bind (fun r => x.toNat?.bind (fun x => if r.2.isEmpty then some (kind, .maximise x, r.1) else none))
+        | _ => none
+      match parsed with
+      | none => (st, some "FAIL drcp unparsed-header")
+      | some (kind, obj, lits) =>
+        let stepLines := (text.splitOn " ; ").map (fun l => l.trimAscii.toString) |>.filter (· ≠ "")
+        match stepLines.mapM (fun l => (lexLine l).bind Pumpkin.Drcp.parse) with
+        | none => (st, some s!"FAIL drcp step-not-readable-by-the-model-reader")
+        | some steps =>
+          -- every literal code used must be defined
+          let codes := steps.flatMap (fun s => match s with
+            | .inference _ prem prop _ _ => prem ++ prop.toList
+            | .nogood _ ls _ => ls
+            | .optimal l => [l]
+            | _ => [])
+          let undefined := codes.filter (fun c => (Pumpkin.DrcpCheck.atomOfCode lits c).isNone)
+          if !undefined.isEmpty then (st, some s!"FAIL drcp undefined-literal-codes {undefined.eraseDups}")
+          else if kind == "0" then
+            -- scaffold: nogoods only; structural checks (the derivations are left to a later tool)
+            let hasEmpty := steps.any (fun s => match s with | .nogood _ [] _ => true | _ => false)
+            let concl := steps.getLast?
+            let ok := match concl with
+              | some .unsat => hasEmpty
+              | some (.optimal _) => true
+              | _ => false
+            (st, some (if ok then s!"ok drcp scaffold steps={steps.length}" else s!"FAIL drcp scaffold-without-empty-nogood-or-conclusion"))
+          else
+            match Pumpkin.DrcpCheck.checkDrcp st.model lits obj steps with
+            | .unsat => (st, some (if st.sols.isEmpty then s!"ok drcp unsat steps={steps.length}" else "FAIL drcp accepted-unsat-proof-of-satisfiable-model"))
+            | .bound b => (st, some s!"ok drcp bound={b} steps={steps.length}")
+            | .stepsValid x b =>
+              -- all steps valid; the concluded bound itself is judged by the oracle
+              let isMax := match obj with | .maximise _ => true | _ => false
+              let o := optimum st.model ⟨1, 0, x⟩ isMax
+              (st, some (if o == some b then s!"ok drcp steps-valid bound={b} steps={steps.length}"
+                else s!"FAIL drcp concluded-bound={b} but optimum={o}"))
+            | .rejected =>
+              -- find the first rejected step for the report
+              let rec firstBad (stc : Pumpkin.DrcpCheck.St) (ss : List Pumpkin.Drcp.Step) (i : Nat) : String :=
+                match ss with
+                | [] => "conclusion"
+                | s :: rest =>
+                  match Pumpkin.DrcpCheck.stepCheck st.model lits obj stc s with
+                  | some stc' => firstBad stc' rest (i + 1)
+                  | none => s!"step#{i + 1}:{repr s}"
+              (st, some s!"FAIL drcp rejected at {firstBad {} steps 0}")
+    | _ => (st, some "FAIL drcp unparsed")
   | "drcpw" :: _ =>
     -- `drcpw <step> :: <line written by the real ProofWriter>`
     match line.splitOn " :: " with
@@ -296,6 +363,34 @@ def respond (st : St) (line : String) : St × Option String :=
         else (st, some s!"FAIL valsel {name} decision-differs-from-model domain={vs} model={repr sup}")
       | _ => (st, some "FAIL valsel unparsed")
     | _, _ => (st, some "FAIL valsel unparsed")
+  | "drat" :: tag :: rest =>
+    -- `drat <tag> <ncl> (k lit*k)*ncl <nproof> (k lit*k)*nproof`: the proof is a RUP refutation of the formula
+    match pList (pList pInt) rest with
+    | some (cnf, rest) =>
+      match pList (pList pInt) rest with
+      | some (proof, []) =>
+        let wf := (cnf ++ proof).all (fun c => c.all (fun l => l != 0))
+        if !wf then (st, some s!"FAIL drat {tag} zero-literal")
+        else if Pumpkin.Rup.checkProof cnf proof then (st, some s!"ok drat {tag} lemmas={proof.length}")
+        else (st, some s!"FAIL drat {tag} not-a-rup-refutation lemmas={proof.length}")
+      | _ => (st, some "FAIL drat unparsed")
+    | none => (st, some "FAIL drat unparsed")
+  | "maxsat" :: tag :: rest =>
+    -- `maxsat <tag> <nsoft> (w <atoms>)*nsoft <reported> v*`
+    let pSoft : P Soft := fun ts => do
+      let (w, ts) ← pNat ts
+      let (as, ts) ← pList pAtom ts
+      pure (⟨w, as⟩, ts)
+    match pList pSoft rest with
+    | some (softs, r :: vals) =>
+      match r.toNat?, pVals vals with
+      | some reported, some a =>
+        if checkMaxSat st.model softs reported a then (st, some s!"ok maxsat {tag} {reported}")
+        else (st, some s!"FAIL maxsat {tag} reported={reported} hard-satisfied={st.model.sat a} cost-of-model={softCost softs a} optimum={maxsatOpt st.model softs}")
+      | _, _ => (st, some "FAIL maxsat unparsed")
+    | _ => (st, some "FAIL maxsat unparsed")
+  | "same" :: tag :: a :: b :: _ =>
+    (st, some (if a == b then s!"ok same {tag}" else s!"FAIL same {tag} {a} vs {b}"))
   | "litsok" :: _ => (st, some "ok litsok")
   | "negok" :: _ => (st, some "ok negok")
   | "panic" :: _ | "nonterm" :: _ | "partial" :: _ | "bad" :: _ | "branchviolation" :: _ | "hang" :: _ =>
